@@ -23,7 +23,7 @@ static int IOMODE = IO_MEM, DUMP = 0;
 #define DH_BITS 22
 typedef struct { long count; int printed; char sig[160]; } sigrec_t;
 typedef struct {
-    long runs, judged, skipped, viol, deaths, hangs, distinct, probes, clean, restricted;
+    long runs, judged, skipped, viol, deaths, hangs, distinct, probes, clean, restricted, ref_diff;
     int samples_left, nsigs; long isolate_idx, harness_deaths;
     sigrec_t sigs[192];
     unsigned long long dh[1u << DH_BITS];
@@ -41,7 +41,7 @@ static void record_violation(const char *sig, const char *cs, const char *detail
     int k; for (k = 0; k < G->nsigs; k++) if (!strcmp(G->sigs[k].sig, sig)) break;
     if (k == G->nsigs) { if (k == 192) k = 191; else { G->nsigs++; snprintf(G->sigs[k].sig, sizeof G->sigs[k].sig, "%s", sig); G->sigs[k].count = 0; G->sigs[k].printed = 0; } }
     G->sigs[k].count++;
-    if (G->sigs[k].printed < PRINT_CAP) {
+    if (G->sigs[k].printed < (strstr(sig, "symmetric-not-expanded") ? 1 : PRINT_CAP)) {      /* all are counted; the symmetric finding is printed once per reader */
         G->sigs[k].printed++;
         char tx[1300]; text_excerpt(tx, sizeof tx);
         out_violation(PROP, sig, cs, "%s | file:\n%s", detail, tx);
@@ -55,19 +55,27 @@ static verdict_t *VS;                        /* shared page: verdict of a case r
 
 /* results land in globals so that they survive the longjmp out of a spinning reader */
 static int_t r_m, r_n, r_nnz; static scalar_t *r_val; static int_t *r_row, *r_col;
-static sigjmp_buf HJ; static volatile sig_atomic_t h_armed; static double h_cpu0;
-static double HANG_CPU_S = 0.0015;
+static sigjmp_buf HJ; static volatile sig_atomic_t h_armed;
 #define CASE_CPU_S 2
-static double cpu_s(void) { struct timespec t; clock_gettime(CLOCK_PROCESS_CPUTIME_ID, &t); return t.tv_sec + 1e-9 * t.tv_nsec; }
 static void h_stop(void) { struct itimerval z; memset(&z, 0, sizeof z); h_armed = 0; setitimer(ITIMER_REAL, &z, NULL); }
-/* armed when the reader asks for input beyond the end of the file: a reader that is still burning CPU 1.5 ms later is
- * spinning at end-of-file (decided on CPU time, so machine load cannot produce a false hang) */
-static void h_tick(int s) { (void)s; if (h_armed && cpu_s() - h_cpu0 > HANG_CPU_S) { h_stop(); siglongjmp(HJ, 1); } }
+/* Armed when the reader asks for input beyond the end of the file.  From then on a 250 us timer ticks; a tick that arrives
+ * on time (the process was really running since the last one - a descheduled process gets one late tick, not many) counts,
+ * a late one resets the count.  HANG_TICKS timely ticks in a row = the reader is still busy about 2 ms after end-of-file:
+ * it is spinning.  Neither machine load nor a hypervisor stealing the CPU can fake that; a healthy reader needs microseconds. */
+#define HANG_TICK_US 250
+static int HANG_TICKS = 6; static volatile int h_good; static double h_last;
+static void h_tick(int s) {
+    (void)s; if (!h_armed) return;
+    double t = now_s();
+    if (t - h_last <= 3e-6 * HANG_TICK_US) h_good++; else h_good = 0;
+    h_last = t;
+    if (h_good >= HANG_TICKS) { h_stop(); siglongjmp(HJ, 1); }
+}
 static void h_arm(void) {
     if (h_armed) return;
     struct sigaction sa; memset(&sa, 0, sizeof sa); sa.sa_handler = h_tick; sa.sa_flags = SA_RESTART; sigaction(SIGALRM, &sa, NULL);
-    struct itimerval it; it.it_interval.tv_sec = 0; it.it_interval.tv_usec = 250; it.it_value = it.it_interval;
-    h_cpu0 = cpu_s(); h_armed = 1; setitimer(ITIMER_REAL, &it, NULL);
+    struct itimerval it; it.it_interval.tv_sec = 0; it.it_interval.tv_usec = HANG_TICK_US; it.it_value = it.it_interval;
+    h_good = 0; h_last = now_s(); h_armed = 1; setitimer(ITIMER_REAL, &it, NULL);
 }
 static void cpu_guard(int seconds) { struct itimerval it; memset(&it, 0, sizeof it); it.it_value.tv_sec = seconds; setitimer(ITIMER_VIRTUAL, &it, NULL); }
 static void vt_alarm(int s) { (void)s; _exit(97); }
@@ -129,8 +137,9 @@ static void fmt_scalar(char *o, size_t ol, scalar_t v) {
 }
 /* compare the returned arrays (column pointers already known to be sane) with a reference CSC whose rows ascend inside
  * each column; shift is added to the reference rows.  0 equal, 1 entries differ, 2 only values differ */
+static int CMP_DR;      /* after cmp_csc: every differing value equals the token rounded through double (double rounding) */
 static int cmp_csc(int n, const int *cp, const int *rw, const scalar_t *vl, int shift, char *why, size_t wl) {
-    int valdiff = 0;
+    int valdiff = 0; CMP_DR = 1;
     for (int j = 0; j < n; j++) {
         int a = r_col[j], b = r_col[j + 1];
         if (b - a != cp[j + 1] - cp[j]) { snprintf(why, wl, "column %d holds %d entries, the file has %d", j, b - a, cp[j + 1] - cp[j]); return 1; }
@@ -138,6 +147,7 @@ static int cmp_csc(int n, const int *cp, const int *rw, const scalar_t *vl, int 
         qsort(W.ent + a, b - a, sizeof(ent_t), ent_cmp);
         for (int k = a, q = cp[j]; k < b; k++, q++) {
             if (W.ent[k].r != rw[q] + shift) { snprintf(why, wl, "column %d: returned row %d where the file has row %d (0-based)", j, W.ent[k].r, rw[q]); return 1; }
+            if (memcmp(&W.ent[k].v, &vl[q], sizeof(scalar_t)) && (vl != W.eval || memcmp(&W.ent[k].v, &W.eval2[q], sizeof(scalar_t)))) CMP_DR = 0;
             if (memcmp(&W.ent[k].v, &vl[q], sizeof(scalar_t)) && !valdiff) {
                 char x[64], y[64]; fmt_scalar(x, sizeof x, W.ent[k].v); fmt_scalar(y, sizeof y, vl[q]);
                 snprintf(why, wl, "entry (%d,%d): returned %s, the printed decimal rounds to %s", rw[q], j, x, y); valdiff = 1;
@@ -177,16 +187,19 @@ static void judge(verdict_t *V) {
         if (!inrange) VFAIL("rowind", "row index out of range 0..%d; %s", (int)r_m - 1, why);
         VFAIL("entries", "%s", why);
     }
+    if (c == 2 && CMP_DR) VFAIL("values:double-rounding", "%s; the returned value is the decimal rounded to double first and to single precision afterwards", why);
     if (c == 2) VFAIL("values", "%s", why);
 }
 
 /* run the reader on TX and judge it.  Inline (stdin replaced by an in-memory stream), or isolated: in a child of its own
  * (so that a crash is a verdict, not the end of the sweep); with --io fd the child's fd 0 really is the file. */
+/* a sanitizer log nobody will read (e.g. the warning about a refused giant allocation) must not pile up */
+static void drop_san_log(pid_t pid) { const char *pre = getenv("VF_ASAN_LOG"); if (pre) { char p[512]; snprintf(p, sizeof p, "%s.%d", pre, (int)pid); unlink(p); } }
 static int ISOLATE;                          /* force isolation (attribution probes, re-run of a case that killed the sweep child) */
 static void run_text(int rd, verdict_t *V) {
     memset(V, 0, sizeof *V);
     if (IOMODE == IO_MEM && !ISOLATE) {
-        if (read_mem(rd)) { V->status = ST_HANG; strcpy(V->clause, "hang"); snprintf(V->detail, sizeof V->detail, "the reader asked for input beyond the end of the file and then kept spinning (no progress for %.1f ms of CPU)", HANG_CPU_S * 1e3); free_result(); return; }
+        if (read_mem(rd)) { V->status = ST_HANG; strcpy(V->clause, "hang"); snprintf(V->detail, sizeof V->detail, "the reader asked for input beyond the end of the file and then kept running without returning (%d timer ticks of %d us: spinning at end-of-file)", HANG_TICKS, HANG_TICK_US); free_result(); return; }
         judge(V); free_result(); return;
     }
     memset(VS, 0, sizeof *VS); VS->status = -1; fflush(vf_out);
@@ -197,19 +210,21 @@ static void run_text(int rd, verdict_t *V) {
         if (IOMODE == IO_FD) { signal(SIGALRM, vf_alarm); alarm(3); read_fd(rd); judge(VS); }
         else {
             signal(SIGVTALRM, vt_alarm); cpu_guard(CASE_CPU_S);
-            if (read_mem(rd)) { VS->status = ST_HANG; strcpy(VS->clause, "hang"); snprintf(VS->detail, sizeof VS->detail, "the reader asked for input beyond the end of the file and then kept spinning (no progress for %.1f ms of CPU)", HANG_CPU_S * 1e3); }
+            if (read_mem(rd)) { VS->status = ST_HANG; strcpy(VS->clause, "hang"); snprintf(VS->detail, sizeof VS->detail, "the reader asked for input beyond the end of the file and then kept running without returning (%d timer ticks of %d us: spinning at end-of-file)", HANG_TICKS, HANG_TICK_US); }
             else judge(VS);
         }
         _exit(0);
     }
     int st = 0; waitpid(pid, &st, 0); vf_last_child = pid;
-    if (WIFEXITED(st) && WEXITSTATUS(st) == 0 && VS->status >= 0) { *V = *VS; return; }
+    if (WIFEXITED(st) && WEXITSTATUS(st) == 0 && VS->status >= 0) { *V = *VS; drop_san_log(pid); return; }
     int kind, code;
     if (WIFSIGNALED(st)) { kind = VF_SIGNAL; code = WTERMSIG(st); } else if (WEXITSTATUS(st) == 99) { kind = VF_ASAN; code = 99; }
     else if (WEXITSTATUS(st) == 97) { kind = VF_TIMEOUT; code = 97; } else if (WEXITSTATUS(st) == 98) { kind = VF_FAULT; code = 98; } else { kind = VF_EXIT; code = WEXITSTATUS(st); }
+    if (kind != VF_ASAN) drop_san_log(pid);
     if (kind == VF_TIMEOUT) { V->status = ST_HANG; strcpy(V->clause, "hang"); snprintf(V->detail, sizeof V->detail, IOMODE == IO_FD ? "the reader did not return within 3 s although stdin is a regular file at end-of-file" : "the reader did not return within %d s of CPU time", CASE_CPU_S); return; }
     V->status = ST_DEATH; strcpy(V->clause, "crash"); vf_crash_desc(kind, code, V->cd, sizeof V->cd);
     snprintf(V->detail, sizeof V->detail, "the reader process died (%s)", V->cd);
+    drop_san_log(pid);
 }
 
 /* one case = (layout, matrix) */
